@@ -110,7 +110,7 @@ Fixpoint unmarshal_value (t : jtree) : option pval :=
   | JBool b => Some (PBool b)
   | JStr s => Some (PStr s)
   | JNum true z _ => if int64_ok z then Some (PInt z) else None   (* json.Unmarshal into int fails *)
-  | JNum false _ b => Some (PFloat b)
+  | JNum false _ b => if f_finite b then Some (PFloat b) else None    (* json.Unmarshal into float64: out of range *)
   | JArr l => match opt_map_all unmarshal_value l with Some vs => Some (PList vs) | None => None end
   | JObj l =>
       (* only the values the Go map kept are unmarshalled: map first (structurally), drop the
@@ -151,7 +151,17 @@ Fixpoint convert_go (t : jtree) : pval :=
       let kvs := dedupe (map (fun kv => (fst kv, convert_go (snd kv))) l) in
       if forallb (fun kv : bytes * pval => is_nil (fst kv)) kvs then PList (map snd kvs) else PArr kvs
   end.
-Definition decode_assoc (t : jtree) : option pval := Some (convert_go t).
+(* every number of the text goes through strconv.ParseFloat, duplicates included: one number
+   outside binary64 fails the whole Unmarshal *)
+Fixpoint all_finite (t : jtree) : bool :=
+  match t with
+  | JNum _ _ b => f_finite b
+  | JArr l => forallb all_finite l
+  | JObj l => forallb (fun kv => all_finite (snd kv)) l
+  | _ => true
+  end.
+Definition decode_assoc (t : jtree) : option pval :=
+  if all_finite t then Some (convert_go t) else None.
 
 (* json_decode(text, assoc): the value, or None for PHP NULL-on-error.  (A literal "null" text
    in assoc mode also gives NULL, as the value.) *)
